@@ -416,7 +416,9 @@ func (s *Server) attachClient(cl *Client, listener string) error {
 	}
 
 	cl.ParseConnect(listener, pk)
-	if atomic.LoadInt64(&s.Info.ClientsConnected) >= s.Options.Capabilities.MaximumClients {
+	// A place is reserved before the limit is checked, so that concurrent connection attempts cannot exceed it.
+	if atomic.AddInt64(&s.Info.ClientsConnected, 1) > s.Options.Capabilities.MaximumClients {
+		atomic.AddInt64(&s.Info.ClientsConnected, -1)
 		if cl.Properties.ProtocolVersion < 5 {
 			s.SendConnack(cl, packets.ErrServerUnavailable, false, nil)
 		} else {
@@ -425,6 +427,7 @@ func (s *Server) attachClient(cl *Client, listener string) error {
 
 		return packets.ErrServerBusy
 	}
+	defer atomic.AddInt64(&s.Info.ClientsConnected, -1)
 
 	code := s.validateConnect(cl, pk) // [MQTT-3.1.4-1] [MQTT-3.1.4-2]
 	if code != packets.CodeSuccess {
@@ -448,9 +451,6 @@ func (s *Server) attachClient(cl *Client, listener string) error {
 
 		return packets.ErrBadUsernameOrPassword
 	}
-
-	atomic.AddInt64(&s.Info.ClientsConnected, 1)
-	defer atomic.AddInt64(&s.Info.ClientsConnected, -1)
 
 	s.hooks.OnSessionEstablish(cl, pk)
 
